@@ -158,8 +158,9 @@ def _functional(name, spec, mon, extra_thorough=None):
 
 PARALLEL = _functional("parallel", "Parallel", "MonParallel", "Parallel_Cases_big.cfg")
 OPTIONS = _functional("options", "Options", "MonOptions")
+ADMISSION = _functional("admission", "Admission", "MonAdmission")
 
-MODULES = {"jobqueue": JOBQUEUE, "joblife": JOBLIFE, "cron": CRON, "dynconfig": DYNCONFIG, "parallel": PARALLEL, "options": OPTIONS}
+MODULES = {"jobqueue": JOBQUEUE, "joblife": JOBLIFE, "cron": CRON, "dynconfig": DYNCONFIG, "parallel": PARALLEL, "options": OPTIONS, "admission": ADMISSION}
 
 PROPS = {
     "C05": {"modules": ["jobqueue"], "assumptions": [
@@ -211,12 +212,23 @@ PROPS["C18"] = {"modules": ["options"], "assumptions": [
     "date options: one instant and two explicit moment formats",
 ]}
 
+PROPS["C16"] = {"modules": ["admission"], "assumptions": [
+    "requests range over presence/absence and small value classes of every optional field the mutators touch (Admission_Cases.tla); other well-typed requests are not explored",
+    "patch faithfulness is computed in Go with the API server's JSON-patch library (github.com/evanphx/json-patch) and asserted by TLC - a differential check over TLC-enumerated cases, not something the specification decides (DESIGN section 4 C16)",
+]}
+PROPS["C17"] = {"modules": ["admission"], "assumptions": [
+    "update pairs change one field at a time (value change, nil -> value, value -> nil)",
+    "accepted => processable is checked over a corpus of schedule shape classes x time-zone forms x cron configurations enumerated by TLC; a mis-parse outside the corpus classes is not found by this check (DESIGN section 4 C17)",
+]}
+
 _PASS = ["NeverEarly", "OnSchedule", "Stops", "Once", "InOrder", "Cap", "NoGap", "HeapFollows"]
 FORMULAS = {
     "C01": ["C01_" + x for x in _PASS] + ["C01_HeapIndex"],
     "C02": ["C02_AtMostOne", "C02_Identity", "C02_KeyRoundTrip", "C02_Requested", "C02_Served", "C02_SharedCacheIntact"],
     "C03": ["C03_" + x for x in _PASS],
     "C14": ["C14_Expansion", "C14_Deterministic", "C14_Admission", "C14_DistinctIdentity", "C14_OwnVariables"],
+    "C16": ["C16_PatchFaithful", "C16_Defaults", "C16_Idempotent", "C16_ConfigName", "C16_Precedence", "C16_LastUpdated"],
+    "C17": ["C17_Immutable", "C17_Processable"],
     "C18": ["C18_Eval", "C18_DefaultAgrees", "C18_Deterministic", "C18_Subst"],
     "C19": ["C19_Layering", "C19_LKG"],
     "C20": ["C20_Converges", "C20_Quiescent", "<every formula of C02, C05-C13, C15 on runs with injected faults or crashes>"],
@@ -265,6 +277,8 @@ LEVEL_TEXT["C19"] = "TLC exhaustively checks on the DynConfig design spec (loade
 LEVEL_TEXT["C20"] = "The design specs of the three system modules (Cron with its reconciler, JobQueue, JobLife) have fault actions at every API call and crash/restart; TLC checks their safety invariants and quiescent-state goals (request served, due Job started, decided Job finished, kill/deletion/TTL completed) with faults enabled. On the real controllers, every replayed TLC behaviour and seeded random run injects rejected writes (and applied-but-error writes, crashes) through the simulated API, drives the real retry path (reconciler.Controller work loop: rate-limited requeue for ever), ends with a drain to quiescence and a livelock budget; TLC's monitors then evaluate all safety formulas along the run and all convergence goals at the drained end, and this check reports those that fail after an injected fault."
 LEVEL_TEXT["C14"] = "A functional TLA+ specification (Parallel.tla) defines the expansion of a parallelism spec (0..N-1, the listed keys, the cartesian product with sorted keys and the last key fastest), when an input can have distinct indexes at all, and the variables of an index; TLC enumerates every spec up to the configured bounds (counts, key lists with duplicates / prefixes / empty strings, matrices up to 3 keys x 2 values), checks the specification's own size and distinctness laws on each, and every enumerated case is evaluated on the real GenerateIndexes (repeated, order determinism), HashIndex, GenerateTaskName, NewPod (substituted task.index_* variables), GetParallelStatus (one status slot per index) and ValidateParallelismSpec; TLC then judges the observations against the specification (expansion equality, own variables, admission must reject undistinguishable inputs, accepted => distinct hash / task name / status slot)."
 LEVEL_TEXT["C18"] = "A functional TLA+ specification (Options.tla) defines Eval(option, submitted value) for the five option types (default exactly when no value was given, trimming, required, allowed values unless custom, multi joining, bool formats, date parsing), Default(option), and Subst (highest-priority source per variable, reserved unknowns empty, other text untouched); TLC enumerates option configs x submitted values (672 cases) and substitution-source subsets (32), checks the specification's own laws (default agrees, null = absent, constraints) and each case is evaluated on the real EvaluateOptions / MakeDefaultOptions through the webhook's JSON decoding, or on the real pipeline JobConfig -> Job mutating webhook (configName, optionValues, substitutions) -> NewPod (image, args, env), 25 times each; TLC judges outcome equality and determinism."
+LEVEL_TEXT["C16"] = "A functional TLA+ specification (Admission.tla) defines the defaulted object of a Job request as a function of which optional fields are present (type, TTL, template, maxAttempts, pending timeout, parallelism strategy, restart policy, finalizers) and of the dynamic-config defaults, the result of configName expansion (owner reference, UID label and template always the JobConfig's; its concurrency policy only when none was given; explicit substitutions over option values over JobConfig defaults; submitted labels over template labels), and the lastUpdated stamping rule for create / schedule changed / unchanged x user-supplied lastUpdated; TLC enumerates ~16 800 requests, checks that defaulting is a fixpoint on the specification, and every case is sent as a raw AdmissionRequest (optional fields really absent) through the real mutating (and for configName also validating) webhooks, the patch applied with the API server's JSON-patch library; TLC judges defaulted object = Mutate(case), second pass = first, patch applies and equals the typed defaulted object."
+LEVEL_TEXT["C17"] = "The same specification defines which single-field Job updates must be refused (task template, parallelism, attempts, retry delay, type, option values, substitutions, JobConfig UID label always; start policy once started; kill timestamp once passed) and the implication chain accepted => loadable by the cron scheduler => bumpable => instantiable => the Job passes defaulting and validation => task objects can be built; TLC enumerates every (field, changed, how, started, kill passed) update and a corpus of 2 065 cron schedules (34 expression shapes incl. H forms, macros, L/W/#, ?, year-bounded and never-matching ones x 15 time-zone forms x 2 formats x hashing on/off, multi-expression lists); each update goes through the real validating webhook and each corpus element through the real JobConfig webhooks, cronschedule.New / Bump, NewJobFromJobConfig, the Job webhooks and NewPod; TLC compares the decisions."
 DESIGN_REF = {p: "DESIGN.md section 4 (%s)" % p for p in ["C%02d" % i for i in range(1, 21)]}
 TECHNIQUE = {}
 LEVEL_NOTE = {}
